@@ -1,0 +1,262 @@
+//! Verification hooks, compiled only with `--cfg iroh_verif`.
+//!
+//! Additive entry points used by the external verification harness: an
+//! in-process server core (packet store, answer cache, pkarr relay handlers and
+//! the DNS request handler, without any socket), the storage (de)serialisation,
+//! and named pause points inside [`ZoneStore::resolve`] / [`ZoneStore::insert`]
+//! that are no-ops unless armed.
+
+use std::{
+    collections::HashMap,
+    future::Future,
+    net::{Ipv4Addr, SocketAddr},
+    sync::{Arc, Mutex, OnceLock},
+    time::Duration,
+};
+
+use bytes::Bytes;
+pub use hickory_server;
+use hickory_server::{
+    net::xfer::Protocol,
+    proto::rr::{Name, RecordSet, RecordType},
+    server::Request,
+};
+use iroh_dns::pkarr::SignedPacket;
+use n0_error::{Result, StdResultExt};
+use tokio::sync::Semaphore;
+
+use crate::{
+    dns::DnsHandler,
+    metrics::Metrics,
+    state::AppState,
+    store::{Options, PacketSource, ZoneStore},
+    util::PublicKeyBytes,
+};
+
+/// Options of the signed packet store (mirror of the crate-private `Options`).
+#[derive(Debug, Clone, Copy)]
+pub struct StoreOptions {
+    /// Maximum number of messages handled in one write transaction.
+    pub max_batch_size: usize,
+    /// Maximum time a write transaction is kept open.
+    pub max_batch_time: Duration,
+    /// Retention period of packets.
+    pub eviction: Duration,
+    /// Pause between two eviction scans.
+    pub eviction_interval: Duration,
+}
+
+impl From<StoreOptions> for Options {
+    fn from(o: StoreOptions) -> Self {
+        Options {
+            max_batch_size: o.max_batch_size,
+            max_batch_time: o.max_batch_time,
+            eviction: o.eviction,
+            eviction_interval: o.eviction_interval,
+        }
+    }
+}
+
+/// The server without its listeners: zone store, pkarr relay handlers, DNS handler.
+#[derive(derive_more::Debug)]
+pub struct Core {
+    #[debug("AppState")]
+    state: AppState,
+}
+
+impl Core {
+    /// Builds the core on top of a caller-supplied redb storage backend.
+    ///
+    /// Must be called inside a tokio runtime (the store spawns its io threads).
+    pub fn with_backend(
+        backend: impl redb::StorageBackend,
+        options: StoreOptions,
+        origins: Vec<String>,
+    ) -> Result<Self> {
+        let db = redb::Database::builder()
+            .create_with_backend(backend)
+            .anyerr()?;
+        let metrics = Arc::new(Metrics::default());
+        let store = ZoneStore::verif_from_db(db, options.into(), metrics.clone())?;
+        let mut config = crate::config::Config::default().dns;
+        config.origins = origins;
+        let dns_handler = DnsHandler::new(store.clone(), &config, metrics.clone())?;
+        Ok(Self {
+            state: AppState {
+                store,
+                dns_handler,
+                metrics,
+            },
+        })
+    }
+
+    /// Builds the core on top of redb's in-memory backend.
+    pub fn in_memory(options: StoreOptions, origins: Vec<String>) -> Result<Self> {
+        Self::with_backend(redb::backends::InMemoryBackend::new(), options, origins)
+    }
+
+    /// Runs the `PUT /pkarr/{key}` handler; returns the HTTP status.
+    pub async fn pkarr_put(&self, key: &str, body: Bytes) -> u16 {
+        crate::http::verif_hooks::pkarr_put(self.state.clone(), key.to_string(), body)
+            .await
+            .status()
+            .as_u16()
+    }
+
+    /// Runs the `GET /pkarr/{key}` handler; returns the HTTP status and body.
+    pub async fn pkarr_get(&self, key: &str) -> (u16, Bytes) {
+        let resp = crate::http::verif_hooks::pkarr_get(self.state.clone(), key.to_string()).await;
+        let status = resp.status().as_u16();
+        let body = axum::body::to_bytes(resp.into_body(), usize::MAX)
+            .await
+            .unwrap_or_default();
+        (status, body)
+    }
+
+    /// Answers a DNS query given in wire format the way the DoH route does
+    /// (`DnsHandler::answer_request`); returns the response in wire format.
+    pub async fn dns_query(&self, wire: &[u8]) -> Result<Bytes> {
+        let src = SocketAddr::new(Ipv4Addr::LOCALHOST.into(), 0);
+        let request = Request::from_bytes(wire.to_vec(), src, Protocol::Https).anyerr()?;
+        self.state.dns_handler.answer_request(request).await
+    }
+
+    /// [`ZoneStore::insert`].
+    pub async fn store_insert(&self, packet: SignedPacket) -> Result<bool> {
+        self.state
+            .store
+            .insert(packet, PacketSource::PkarrPublish)
+            .await
+    }
+
+    /// [`ZoneStore::get_signed_packet`].
+    pub async fn store_get(&self, key: [u8; 32]) -> Result<Option<SignedPacket>> {
+        self.state
+            .store
+            .get_signed_packet(&PublicKeyBytes::new_unchecked(key))
+            .await
+    }
+
+    /// Timestamp (µs) of the zone cached for `key`: `None` when the cache lock is currently
+    /// held, `Some(None)` when no zone is cached.
+    pub fn cache_peek(&self, key: [u8; 32]) -> Option<Option<u64>> {
+        self.state
+            .store
+            .verif_cache_peek(&PublicKeyBytes::new_unchecked(key))
+    }
+
+    /// [`ZoneStore::resolve`].
+    pub async fn store_resolve(
+        &self,
+        key: [u8; 32],
+        name: &Name,
+        record_type: RecordType,
+    ) -> Result<Option<Arc<RecordSet>>> {
+        self.state
+            .store
+            .resolve(&PublicKeyBytes::new_unchecked(key), name, record_type)
+            .await
+    }
+}
+
+/// The storage serialisation of a packet (`<8 bytes last_seen><packet bytes>`).
+pub fn serialize_packet(packet: &SignedPacket) -> Vec<u8> {
+    crate::store::verif_hooks::serialize_packet(packet)
+}
+
+/// The storage deserialisation of a packet (with the legacy fallback).
+pub fn deserialize_packet(data: &[u8]) -> Result<SignedPacket> {
+    crate::store::verif_hooks::deserialize_packet(data)
+}
+
+#[derive(Debug)]
+struct PausePoint {
+    reached: Semaphore,
+    resume: Semaphore,
+}
+
+impl Default for PausePoint {
+    fn default() -> Self {
+        Self {
+            reached: Semaphore::new(0),
+            resume: Semaphore::new(0),
+        }
+    }
+}
+
+type PauseKey = (&'static str, u32);
+
+fn pause_points() -> &'static Mutex<HashMap<PauseKey, Arc<PausePoint>>> {
+    static POINTS: OnceLock<Mutex<HashMap<PauseKey, Arc<PausePoint>>>> = OnceLock::new();
+    POINTS.get_or_init(Default::default)
+}
+
+tokio::task_local! {
+    static THREAD_ID: u32;
+}
+
+/// Runs `fut` as logical thread `id`: pause points reached inside it are looked up under
+/// `(name, id)`.  Code outside any `with_thread` scope is thread `0`.
+pub async fn with_thread<F: Future>(id: u32, fut: F) -> F::Output {
+    THREAD_ID.scope(id, fut).await
+}
+
+/// A pause point: returns immediately unless `(name, current thread id)` was armed with
+/// [`arm`]; an armed point signals that it was reached and waits for
+/// [`PauseHandle::release`].
+pub(crate) async fn pause(name: &'static str) {
+    let id = THREAD_ID.try_with(|id| *id).unwrap_or(0);
+    let point = pause_points()
+        .lock()
+        .expect("poisoned")
+        .get(&(name, id))
+        .cloned();
+    if let Some(point) = point {
+        point.reached.add_permits(1);
+        if let Ok(permit) = point.resume.acquire().await {
+            permit.forget();
+        }
+    }
+}
+
+/// Handle of an armed pause point.
+#[derive(Debug, Clone)]
+pub struct PauseHandle {
+    point: Arc<PausePoint>,
+}
+
+impl PauseHandle {
+    /// Waits until a task is parked at the pause point.
+    pub async fn reached(&self) {
+        if let Ok(permit) = self.point.reached.acquire().await {
+            permit.forget();
+        }
+    }
+
+    /// Lets one parked (or future) task pass the pause point.
+    pub fn release(&self) {
+        self.point.resume.add_permits(1);
+    }
+}
+
+/// Arms the pause point `name` for logical thread `id` (process-wide) and returns its handle.
+///
+/// Names: `resolve:cache-check`, `resolve:store-get`, `resolve:cache-insert`,
+/// `insert:upsert`, `insert:cache-remove`, `insert:ack`.
+pub fn arm(name: &'static str, id: u32) -> PauseHandle {
+    let point = Arc::new(PausePoint::default());
+    pause_points()
+        .lock()
+        .expect("poisoned")
+        .insert((name, id), point.clone());
+    PauseHandle { point }
+}
+
+/// Disarms every pause point; parked tasks are released.
+pub fn disarm_all() {
+    let mut points = pause_points().lock().expect("poisoned");
+    for (_, point) in points.drain() {
+        point.resume.close();
+        point.reached.close();
+    }
+}
